@@ -59,6 +59,7 @@ type FD struct {
 	Delivered []byte
 	Accepted  []byte
 	PeerGone  bool // hang-up state for pipes (no writer left / no reader left)
+	HupSeen   bool // epoll has reported ERR/HUP for this descriptor: the condition is permanent, I/O no longer blocks
 
 	// datagrams: the last datagram delivered and its source
 	LastFrom [4]byte
@@ -101,6 +102,7 @@ type Config struct {
 	AllowPartial   bool // read/write may transfer fewer bytes than asked
 	AllowHup       bool // epoll may report ERR/HUP
 	Batch          int  // max entries per epoll_wait
+	MaxWaits       int  // max number of epoll_wait calls (0: unbounded); more is outside the bound
 	MaxDataOps     int  // max number of read/write calls that transfer data (0: unbounded); more is outside the bound
 	NoSpurious     bool // epoll reports a socket readable/writable only by choice anyway; kept for documentation
 }
@@ -270,7 +272,7 @@ func Read(fd int, p []byte) (int, syscall.Errno) {
 		if len(p) == 0 {
 			return 0, 0
 		}
-		switch pickOutcome("read", f.Kind != KFile && f.NonBlock) {
+		switch pickOutcome("read", f.Kind != KFile && f.NonBlock && !f.HupSeen) {
 		case outAgain:
 			return -1, syscall.EAGAIN
 		case outEOF:
@@ -280,10 +282,10 @@ func Read(fd int, p []byte) (int, syscall.Errno) {
 		case outIntr:
 			return -1, syscall.EINTR
 		}
-		n := vf.Len("read.n")
-		vf.Assume(vf.All(1 <= n, n <= len(p)))
-		if !K.Cfg.AllowPartial {
-			vf.Assume(n == len(p))
+		n := len(p)
+		if K.Cfg.AllowPartial {
+			n = vf.Len("read.n")
+			vf.Assume(vf.All(1 <= n, n <= len(p)))
 		}
 		K.DataOps++
 		vf.Assume(K.Cfg.MaxDataOps == 0 || K.DataOps <= K.Cfg.MaxDataOps)
@@ -311,7 +313,7 @@ func Write(fd int, p []byte) (int, syscall.Errno) {
 		if len(p) == 0 {
 			return 0, 0
 		}
-		switch pickOutcome("write", f.Kind != KFile && f.NonBlock) {
+		switch pickOutcome("write", f.Kind != KFile && f.NonBlock && !f.HupSeen) {
 		case outAgain:
 			return -1, syscall.EAGAIN
 		case outEOF:
@@ -321,10 +323,10 @@ func Write(fd int, p []byte) (int, syscall.Errno) {
 		case outIntr:
 			return -1, syscall.EINTR
 		}
-		n := vf.Len("write.n")
-		vf.Assume(vf.All(1 <= n, n <= len(p)))
-		if !K.Cfg.AllowPartial {
-			vf.Assume(n == len(p))
+		n := len(p)
+		if K.Cfg.AllowPartial {
+			n = vf.Len("write.n")
+			vf.Assume(vf.All(1 <= n, n <= len(p)))
 		}
 		K.DataOps++
 		vf.Assume(K.Cfg.MaxDataOps == 0 || K.DataOps <= K.Cfg.MaxDataOps)
@@ -494,6 +496,7 @@ func EpollWait(epfd int, out []Ready, timeoutMs int) (int, syscall.Errno) {
 		return -1, syscall.EBADF
 	}
 	K.Log.EpollWaits++
+	vf.Assume(K.Cfg.MaxWaits == 0 || K.Log.EpollWaits <= K.Cfg.MaxWaits)
 	if K.Cfg.AllowEINTR && vf.Bool("epoll_wait.eintr") {
 		return -1, syscall.EINTR
 	}
@@ -511,7 +514,6 @@ func EpollWait(epfd int, out []Ready, timeoutMs int) (int, syscall.Errno) {
 		if pick == 0 {
 			break
 		}
-		pick = vf.Concretize(pick, NFD)
 		vf.Assume(pick >= 3)
 		vf.Assume(!taken[pick])
 		f := &K.FDs[pick]
@@ -537,7 +539,9 @@ func EpollWait(epfd int, out []Ready, timeoutMs int) (int, syscall.Errno) {
 				// sockets: HUP/ERR come together with readability (and writability when asked for)
 				vf.Assume(vf.Implies(hup != 0, mask&reg&(EPOLLIN|EPOLLOUT) == reg&(EPOLLIN|EPOLLOUT)))
 			}
-			mask = uint32(vf.Concretize(int(mask), 32))
+			if mask&(EPOLLERR|EPOLLHUP) != 0 {
+				f.HupSeen = true
+			}
 		}
 		taken[pick] = true
 		out[n] = Ready{Events: mask, Data: f.Ep[ep].Data}
